@@ -252,8 +252,12 @@ def run_cases(ck, cases, step, limit, per_shard=60):
     results = ck.harness_run(binname, cases)
     ck.ran_correspondence = True
     items = []
+    n_panic = 0
     for c, r in zip(cases, results):
         if r.get("panic") or r.get("crash"):
+            n_panic += 1
+            if n_panic > 5:
+                continue
             ck.violation("Server::run panicked/crashed on a scripted environment",
                          {"case": c, "impl": r}, tag="panic%d" % c["id"])
             continue
